@@ -426,6 +426,16 @@ pub fn stressors() -> Vec<(String, String)> {
     v.push((format!("hex pairs x {n}"), format!("s == {}", vec!["ab"; n].join(":"))));
     v.push((format!("{n} blank lines then an error"), format!("{}$", "\n".repeat(n))));
     v.push((format!("{n} spaces"), " ".repeat(n)));
+    // nesting *inside* a literal: the filter-level nesting limit does not see it
+    for (name, open, close) in [("groups", "(", ")"), ("non-capturing groups", "(?:", ")"), ("classes", "[a[", "]]")] {
+        v.push((format!("regex of {n} nested {name}"), format!("s matches \"{}a{}\"", open.repeat(n), close.repeat(n))));
+        v.push((format!("raw regex of {n} nested {name}"), format!("s matches r#\"{}a{}\"#", open.repeat(n), close.repeat(n))));
+        v.push((format!("regex of {n} unclosed {name}"), format!("s matches \"{}a\"", open.repeat(n))));
+    }
+    v.push((format!("regex of {n} stacked quantified groups"), format!("s matches \"{}a{}\"", "(".repeat(n), ")?".repeat(n))));
+    v.push((format!("regex of {n} optional atoms"), format!("s matches \"{}\"", "a?".repeat(n))));
+    v.push((format!("regex with a counted repetition of {n}"), format!("s matches \"(a{{1,{n}}}){{1,{n}}}\"")));
+    v.push((format!("wildcard of {n} escapes"), format!("s wildcard \"{}\"", "\\\\*".repeat(n))));
     v.push((format!("regex of {n} alternations"), format!("s matches \"{}\"", vec!["a"; 2000].join("|"))));
     v.push((format!("wildcard of {n} stars"), format!("s wildcard \"{}\"", "a*".repeat(5000))));
     v
